@@ -7,19 +7,71 @@ def name_errors(tier_name):
     return driver.run("C02", tier_name, want_kind=tv.NAME)
 
 
+def _import_block(i0, i1, use_sel, in_function, codemod):
+    from harness import impfam
+
+    # which of the bound names are used: all / none / only the first / only the second / only the last
+    sel = use_sel % 5
+    mask = 15 if sel == 0 else 0 if sel == 1 else 1 if sel == 2 else 2 if sel == 3 else 8
+    if sel == 4:
+        n_names = len(dict.fromkeys(impfam.pick(i0)[1] + impfam.pick(i1)[1]))
+        mask = 1 << (n_names - 1)
+    src = impfam.build(i0, i1, mask, codemod == "remove-future-imports", in_function)
+    before, after, _out = impfam.run(codemod, src)
+    if before[0] != "val":
+        return True  # the original itself does not run
+    return before == after
+
+
+def import_block_order(i0: int, i1: int, use_sel: int, in_function: bool) -> bool:
+    """order-imports (complete real pipeline) on a module of two import statements of symbolic kinds (plain,
+    dotted, from, aliased, the same name under two bindings, parenthesised multi-line, multi-name) followed by uses
+    of a symbolic subset of the bound names, at module level or inside a function: the rewritten module still binds
+    every used name (no NameError) and computes the same values.
+    post: _
+    """
+    from vlib.core import fin
+
+    return fin(_import_block(i0, i1, use_sel, in_function, "order-imports"))
+
+
+def import_block_unused(i0: int, i1: int, use_sel: int, in_function: bool) -> bool:
+    """unused-imports (complete real pipeline) on the same family: no import still in use is removed.
+    post: _
+    """
+    from vlib.core import fin
+
+    return fin(_import_block(i0, i1, use_sel, in_function, "unused-imports"))
+
+
+def import_block_future(i0: int, i1: int, use_sel: int, in_function: bool) -> bool:
+    """remove-future-imports (complete real pipeline) on the same family preceded by a __future__ import.
+    post: _
+    """
+    from vlib.core import fin
+
+    return fin(_import_block(i0, i1, use_sel, in_function, "remove-future-imports"))
+
+
+def warmup():
+    import_block_order(7, 0, 0, False)
+    import_block_unused(8, 2, 2, True)
+    import_block_future(0, 4, 0, False)
+
+
 SPEC = {
     "property": "C02",
     "level": "translation_validation",
     "files": ["src/core_codemods/invert_boolean_check.py", "src/core_codemods/combine_calls_base.py", "src/core_codemods/combine_startswith_endswith.py", "src/core_codemods/combine_isinstance_issubclass.py"],
-    "functions": ["the complete real pipeline of invert-boolean-check, combine-startswith-endswith, combine-isinstance-issubclass (see C08)"],
+    "functions": ["the complete real pipeline of invert-boolean-check, combine-startswith-endswith, combine-isinstance-issubclass (see C08)", "the complete real pipelines of order-imports, unused-imports and remove-future-imports (codemodder.codemods.transformations.clean_imports / remove_unused_imports) on selector-built import blocks"],
     "bounds": {"quick": "the C08 quick grammar", "thorough": "the C08 thorough grammar"},
     "assumptions": [
         "binding environment fixed by the ORIGINAL program: every name it reads is bound, every other name is unbound; z3 searches runtime values for which the rewritten program evaluates an unbound name (raises NameError) while the original does not",
         "a fresh name in a branch no value assignment reaches is not reported (never a false alarm)",
     ],
     "stubs": ["FileContext with a non-existent path"],
-    "outside": ["import insertion / removal (AddImportsVisitor, RemoveImportsVisitor, NameResolutionMixin)", "RemoveUnusedVariables, sql-parameterization clean-up", "function / class scopes (need whole-transformer runs with scope metadata; nothing symbolic remains once the program is concrete)"],
+    "outside": ["import insertion by hardening codemods (AddImportsVisitor, NameResolutionMixin)", "RemoveUnusedVariables, sql-parameterization clean-up", "function / class scopes (need whole-transformer runs with scope metadata; nothing symbolic remains once the program is concrete)"],
     "rule": "as C08; the query is restricted to outcome kind NameError",
     "drivers": [name_errors],
-    "xh": [],
+    "xh": [__import__("vlib.main", fromlist=["Xh"]).Xh(fn, 500, 900) for fn in ("import_block_order", "import_block_unused", "import_block_future")],
 }
